@@ -74,6 +74,7 @@ import (
 	xven "example.com/app/xvendor/example.com/c10/lib"
 	vnest "example.com/app/vendor/example.com/dep/vendor/example.com/c10/lib"
 	vtmpl "example.com/app/vendor/example.com/c10/a/tmpl"
+	vroot "vendor/example.com/c10/lib"
 @GSIMPORTS@)
 
 var _ unsafe.Pointer
@@ -88,6 +89,7 @@ var _ vpre.T
 var _ xven.T
 var _ vnest.T
 var _ vtmpl.Template
+var _ vroot.T
 
 type A = int
 type AP = *int
@@ -898,7 +900,7 @@ var fixedTypes = []string{
 	// near misses of "a vendored copy is the package itself": the path after /vendor/ merely ends in / starts with the package path,
 	// the same suffix without a vendor directory, a directory whose name only contains "vendor", a vendored copy of another package
 	"vsuf.T", "msuf.T", "vpre.T", "xven.T", "*vsuf.T", "[]msuf.T", "func(vpre.T) xven.T", "vsuf.U", "vtmpl.Template", "*vtmpl.Template",
-	"map[string]vsuf.T", "func(lib.T, vsuf.T)", "vnest.T", "*vnest.T",
+	"map[string]vsuf.T", "func(lib.T, vsuf.T)", "vnest.T", "*vnest.T", "vroot.T",
 	"[8]int", "[10]int", "[16]int", "[3]int", "[15]string", "[0]int", "[1]int",
 }
 
@@ -1027,10 +1029,10 @@ func main() {
 	engPats := selectEnginePats(pats0(pats), *engN)
 	var engIdx []int
 	for j := range typeExprs {
-		if strings.Contains(typeExprs[j], "vnest.") {
+		if strings.Contains(typeExprs[j], "vnest.") || strings.Contains(typeExprs[j], "vroot.") {
 			continue // recorded finding (nested vendor directories): exercised by the direct section only
 		}
-		if j < 70 || (j >= pairFrom && j < pairTo) || (j >= len(fixedTypes)-14 && j < len(fixedTypes)) {
+		if j < 70 || (j >= pairFrom && j < pairTo) || (j >= len(fixedTypes)-22 && j < len(fixedTypes)) {
 			engIdx = append(engIdx, j)
 		}
 	}
@@ -1059,6 +1061,7 @@ func main() {
 		"example.com/app/xvendor/example.com/c10/lib":                       srcLib,
 		"example.com/app/vendor/example.com/dep/vendor/example.com/c10/lib": srcLib,
 		"example.com/app/vendor/example.com/c10/a/tmpl":                     srcTmpl,
+		"vendor/example.com/c10/lib":                                        srcLib, // the GOROOT/src/vendor form
 		"example.com/c10/pool": sb.String(),
 	}
 	for p, src := range gsPkgs {
@@ -1076,7 +1079,7 @@ func main() {
 		tys = append(tys, t)
 		o.Types = append(o.Types, typeExprs[i])
 		o.Terms = append(o.Terms, ser.Term(t))
-		o.Vendored = append(o.Vendored, strings.Contains(t.String(), "/vendor/"))
+		o.Vendored = append(o.Vendored, strings.Contains(t.String(), "/vendor/") || strings.Contains(t.String(), "vendor/example.com"))
 		o.NestedV = append(o.NestedV, nestedVendor(t))
 		o.Instd = append(o.Instd, strings.Contains(t.String(), "gen.L[") || strings.Contains(t.String(), "gen.Pair["))
 	}
